@@ -157,6 +157,10 @@ func runC14(c *core.Ctx) {
 				if m.Op == token.NEQ && core.IsNilConst(m.Y) && isOpField(m.X, "cor") {
 					present = true
 				}
+				// any nil test of the received request itself on the way must say "not nil"
+				if m.Op == token.EQL && core.IsNilConst(m.Y) && core.Resolve(m.X) == op {
+					return false, "the reply is sent only when the received request is nil: real requests are never answered (their YieldFrom hangs) and the nil request is dereferenced"
+				}
 			}
 			min, max := core.PathCountFrom(w.Block(), nil, func(ins ssa.Instruction) int {
 				if ins == ssa.Instruction(w) {
@@ -316,6 +320,9 @@ func runC14(c *core.Ctx) {
 			if !setOK {
 				return false, "the started flag is not set before the goroutine is spawned (IsStarted can be false while the effect already runs; a second Start spawns twice)"
 			}
+			if !c14notStarted(p, goIns.Block(), st.Params[0].Name()) {
+				return false, "the goroutine is spawned without knowing the coroutine was not started yet (the started flag is not tested on the not-started edge): a second Start runs the effect twice"
+			}
 			var eff, cls ssa.Instruction
 			core.Instrs(body, func(ins ssa.Instruction) {
 				if call, isC := ins.(*ssa.Call); isC {
@@ -349,7 +356,7 @@ func runC14(c *core.Ctx) {
 		c.Analysed(core.FuncName(sv))
 		rs := callsOf(sv, core.FuncName(rc))
 		ss := callsOf(sv, "fpgo.CorDef.Start")
-		ok := len(rs) == 1 && len(ss) == 1 && core.InstrDominates(rs[0], ss[0]) && rs[0].Call.Args[0] == ssa.Value(sv.Params[0]) && core.IsNilConst(rs[0].Call.Args[1]) && rs[0].Call.Args[2] == ssa.Value(sv.Params[1]) && ss[0].Call.Args[0] == ssa.Value(sv.Params[0])
+		ok := len(rs) == 1 && len(ss) == 1 && c14notStarted(p, rs[0].Block(), sv.Params[0].Name()) && core.InstrDominates(rs[0], ss[0]) && rs[0].Call.Args[0] == ssa.Value(sv.Params[0]) && core.IsNilConst(rs[0].Call.Args[1]) && rs[0].Call.Args[2] == ssa.Value(sv.Params[1]) && ss[0].Call.Args[0] == ssa.Value(sv.Params[0])
 		c.Check(ok, "R2", "CorDef.StartWithVal", p.Pos(sv.Pos()), "receive(nil, in) precedes Start()", "the initial value is not enqueued (as receive(nil, in)) before the coroutine is started: a caller that sees IsStarted can get its request in front of it, shifting every later pairing")
 	}
 	if dn := p.Method(p.Fpgo, "CorDef", "DoNotation"); dn == nil || len(dn.AnonFuncs) != 1 {
@@ -425,4 +432,14 @@ func c14waitShape(p *core.Prog, parent, cl *ssa.Function, isAssign func(ssa.Inst
 		return false, "Done is not called exactly once"
 	}
 	return true, "Add(1) → start once → closure assigns then Done → Wait dominates the return"
+}
+
+// c14notStarted: block b is on the not-started edge of a test of the started flag of base.
+func c14notStarted(p *core.Prog, b *ssa.BasicBlock, base string) bool {
+	for _, cnd := range core.EdgeFacts(b) {
+		if condFlag(p, cnd, base, "isStarted", false, 0) {
+			return true
+		}
+	}
+	return false
 }
